@@ -59,6 +59,7 @@
 #define NROOTS    (NSTATIC + NSTACK)
 #define PTRFREE1  30		/* object codes registered as pointer free */
 #define PTRFREE2  31
+#define GIANTMIN  4000		/* registry entries from here on are not used by the drain command */
 
 #define NOINLINE __attribute__((noinline))
 #define CHILD_TIMEOUT_MS 60000
@@ -381,13 +382,23 @@ static NOINLINE void op_alloc(int b, int code, long n, int tag)
 
 static NOINLINE void op_free(int b)
 {
-	long gc0 = gc_count;
+	/* a collection can start INSIDE stoFree (the free index asks for a page and none is free): the block is
+	 * released first, the collection sees the rest -- the events are written in that order */
+	static char later[1 << 19];
+	long gc0 = gc_count, p0, n;
 	during = "Free";
+	out_flush();
 	stoFree((Pointer) (heapbase + reg[b].off));
 	reg[b].alive = 0;
+	p0 = outlen;
 	observe_losses(gc0, -1, -1, 0);
+	n = outlen - p0;
+	if (n > (long) sizeof later) n = 0;	/* (cannot happen: 4096 registry entries) */
+	memcpy(later, outbuf + p0, n);
+	outlen = p0;
 	out_str("{\"ev\":\"Free\""); out_addr("pg", "off", reg[b].off);
 	finish_event();
+	if (outlen + n < (long) sizeof(outbuf) - 16) { memcpy(outbuf + outlen, later, n); outlen += n; }
 }
 
 static NOINLINE void op_resize(int b, long n)
@@ -526,6 +537,40 @@ static NOINLINE void op_note(void)
 	out_kv("treepages", tpg); out_kv("carrierpages", lpg); out_str("}\n");
 }
 
+/* number of free heap pages, as the allocator reports it (stoShowDetail: "Pages: n: b busy, f free, ...") */
+static NOINLINE long free_pages(void)
+{
+	static char pbuf[1024];
+	FILE *mem, *old = osStderr;
+	char *q;
+	memset(pbuf, 0, sizeof pbuf);
+	mem = fmemopen(pbuf, sizeof pbuf - 1, "w");
+	if (!mem) return -1;
+	osStderr = mem;
+	stoShowDetail(0x01);		/* STO_SHOW_PAGES */
+	osStderr = old;
+	fclose(mem);
+	q = strstr(pbuf, " busy, ");
+	return q ? atol(q + 7) : -1;
+}
+
+/*
+ * Script command D: use up the free heap pages (blocks of 256 bytes, 15 to a one-page section, registry
+ * entries DRAIN0...), so that the next request for a page -- also one made by the allocator for its own
+ * structures in the middle of an operation -- finds none and, in automatic mode, starts a collection.
+ */
+#define DRAIN0 3000
+static NOINLINE void op_drain(void)
+{
+	int id;
+	for (id = DRAIN0; id < GIANTMIN; id++) {
+		if (reg[id].alive) continue;
+		if (free_pages() <= 0) break;
+		if (id >= nreg) nreg = id + 1;
+		op_alloc(id, PTRFREE1, 256, 1 + id % 7);
+	}
+}
+
 static void op_config(void)
 {
 	out_str("{\"ev\":\"Config\",\"auto\":"); out_str(gcmode ? "true" : "false");
@@ -564,6 +609,7 @@ static void setup(void)
  *   W id slot tgt delta | S root tgt delta | C | X (end of one script)
  *   G id code n tag   as A, but the owner never writes or reads the block (a giant block that only
  *                     shapes the heap)          N   Note event (the allocator's own housekeeping report)
+ *   D                 use up the free heap pages (see op_drain)
  * Operations on blocks that are not (or no longer) allocated are skipped.
  */
 static const char *sc, *sc_end;
@@ -598,6 +644,7 @@ static NOINLINE int run_script(void)	/* returns 0 at end of input */
 			if (a >= 0 && a < MAXB && !reg[a].alive) { if (a >= nreg) nreg = a + 1; raw_next = 1; op_alloc((int) a, (int) b2, c2, (int) d); }
 			break;
 		case 'N': op_note(); break;
+		case 'D': op_drain(); break;
 		case 'F': a = sc_long(); if (a < nreg && reg[a].alive) op_free((int) a); break;
 		case 'R': a = sc_long(); b2 = sc_long(); if (a < nreg && reg[a].alive) op_resize((int) a, b2); break;
 		case 'K': a = sc_long(); b2 = sc_long(); if (a < nreg && reg[a].alive) op_recode((int) a, (int) b2); break;
